@@ -62,7 +62,15 @@ type Case struct {
 	Reuse   bool   `json:"reuse,omitempty"`
 	// ReuseVia: how connection reuse is switched on: "" New + EnableConnectionReuse before the first call;
 	// "with-client" NewWithClient + EnableConnectionReuse; "after-first-call" enabled once a first call has been made
-	ReuseVia  string `json:"reuseVia,omitempty"`
+	ReuseVia string `json:"reuseVia,omitempty"`
+	// RespLen > 0: size of the scripted response body (otherwise Len)
+	RespLen int `json:"respLen,omitempty"`
+	// RespCT: Content-Type of the scripted response ("" = application/json)
+	RespCT string `json:"respContentType,omitempty"`
+	// CloseFails: Close of every upload source reports an error (after releasing the source)
+	CloseFails bool `json:"closeFails,omitempty"`
+	// FaultSrc: which upload source of a multi-file payload carries the fault (0 first, 1 second)
+	FaultSrc  int    `json:"faultSource,omitempty"`
 	Deadline  string `json:"deadline,omitempty"` // request | context | both-request-shorter | both-context-shorter
 	Reader    string `json:"reader,omitempty"`   // all | none | half | err
 	Chunked   bool   `json:"chunked,omitempty"`
@@ -74,7 +82,7 @@ type Case struct {
 }
 
 func (c *Case) key() string {
-	return fmt.Sprintf("%s|%s|%s|%d|%d|%d|%v|%s|%s|%v|%s|%v|%v|%d", c.Kind, c.Payload, c.Fault, c.Offset, c.Len, c.Chunk, c.Reuse, c.Deadline, c.Reader, c.Chunked, c.HookPoint, c.Sizes, c.EOFWith, c.Perturb) + "|" + c.ReuseVia
+	return fmt.Sprintf("%s|%s|%s|%d|%d|%d|%v|%s|%s|%v|%s|%v|%v|%d", c.Kind, c.Payload, c.Fault, c.Offset, c.Len, c.Chunk, c.Reuse, c.Deadline, c.Reader, c.Chunked, c.HookPoint, c.Sizes, c.EOFWith, c.Perturb) + "|" + c.ReuseVia + fmt.Sprintf("|%d|%s|%v|%d", c.RespLen, c.RespCT, c.CloseFails, c.FaultSrc)
 }
 
 // switchRT serves a first, benign exchange itself and hands every later request to next.
@@ -139,6 +147,7 @@ type source struct {
 	chunk      int
 	closed     int32
 	readsAfter int32
+	closeErr   bool
 	mu         sync.Mutex
 }
 
@@ -182,7 +191,13 @@ func (s *source) Read(p []byte) (int, error) {
 	s.pos += n
 	return n, nil
 }
-func (s *source) Close() error { atomic.AddInt32(&s.closed, 1); return nil }
+func (s *source) Close() error {
+	atomic.AddInt32(&s.closed, 1)
+	if s.closeErr {
+		return errors.New("close reports an error (the source is released all the same)")
+	}
+	return nil
+}
 
 // plainReader hides Close (an io.Reader payload).
 type plainReader struct{ s *source }
@@ -228,6 +243,7 @@ func (b *respBody) left() int {
 }
 
 type scriptedRT struct {
+	ct       string // Content-Type of the answer ("" = application/json)
 	mode     string // ok | err-before | err-after | err-mid
 	body     *respBody
 	consumed int64
@@ -262,8 +278,12 @@ func (s *scriptedRT) RoundTrip(r *http.Request) (*http.Response, error) {
 	if s.mode == "err-after" || s.mode == "err-mid" {
 		return nil, errInjected
 	}
+	ct := s.ct
+	if ct == "" {
+		ct = "application/json"
+	}
 	return &http.Response{StatusCode: 200, Status: "200 OK", Proto: "HTTP/1.1", ProtoMajor: 1, ProtoMinor: 1,
-		Header: http.Header{"Content-Type": {"application/json"}}, Body: s.body, ContentLength: -1, Request: r}, nil
+		Header: http.Header{"Content-Type": {ct}}, Body: s.body, ContentLength: -1, Request: r}, nil
 }
 
 // ---------- goroutine census ----------
@@ -347,6 +367,10 @@ func submitWatched(r *client.Runtime, op *rt.ClientOperation, limit time.Duratio
 
 const baseDeadline = 60 * time.Millisecond
 
+// longDeadline is the longer of two deadlines: far beyond the 200 x baseDeadline watchdog, so that a call
+// which honours the wrong one shows as "did not return while the fault was held".
+const longDeadline = time.Hour
+
 func deadlines(c *Case) (reqTimeout time.Duration, ctx context.Context, cancel context.CancelFunc) {
 	ctx, cancel = context.Background(), func() {}
 	switch c.Deadline {
@@ -354,11 +378,11 @@ func deadlines(c *Case) (reqTimeout time.Duration, ctx context.Context, cancel c
 		ctx, cancel = context.WithTimeout(context.Background(), baseDeadline)
 		return 0, ctx, cancel
 	case "both-request-shorter":
-		ctx, cancel = context.WithTimeout(context.Background(), 100*baseDeadline)
+		ctx, cancel = context.WithTimeout(context.Background(), longDeadline)
 		return baseDeadline, ctx, cancel
 	case "both-context-shorter":
 		ctx, cancel = context.WithTimeout(context.Background(), baseDeadline)
-		return 100 * baseDeadline, ctx, cancel
+		return longDeadline, ctx, cancel
 	default:
 		return baseDeadline, ctx, cancel
 	}
@@ -391,9 +415,26 @@ func (h *harness) params(c *Case, timeout time.Duration, failWriter bool) rt.Cli
 		case "files+fields":
 			s1 := newSource("a.txt", c.Len, failAtFor(c), c.Chunk)
 			s2 := newSource("b.txt", 30, -1, 0)
+			if c.FaultSrc == 1 { // the second file of the field carries the fault
+				s1 = newSource("a.txt", 30, -1, 0)
+				s2 = newSource("b.txt", c.Len, failAtFor(c), c.Chunk)
+			}
 			h.sources = append(h.sources, s1, s2)
 			_ = req.SetFormParam("field", "v1", "v2")
 			_ = req.SetFileParam("file", s1, s2)
+		case "files-2-fields":
+			s1 := newSource("a.txt", 30, -1, 0)
+			s2 := newSource("b.txt", c.Len, failAtFor(c), c.Chunk)
+			s3 := newSource("c.txt", 30, -1, 0)
+			if c.FaultSrc == 0 {
+				s1, s2 = newSource("a.txt", c.Len, failAtFor(c), c.Chunk), newSource("b.txt", 30, -1, 0)
+			}
+			h.sources = append(h.sources, s1, s2, s3)
+			_ = req.SetFileParam("file", s1)
+			_ = req.SetFileParam("other", s2, s3)
+		}
+		for _, src := range h.sources {
+			src.closeErr = c.CloseFails
 		}
 		if failWriter {
 			return errInjected
@@ -437,7 +478,7 @@ func (h *harness) reader(c *Case) rt.ClientResponseReader {
 
 func consumesFor(c *Case) []string {
 	switch c.Payload {
-	case "file", "files+fields":
+	case "file", "files+fields", "files-2-fields":
 		return []string{"multipart/form-data"}
 	case "reader", "readcloser":
 		return []string{"application/octet-stream"}
@@ -616,8 +657,12 @@ func runUpload(m *mon.M, c *Case) {
 func runRoundtrip(m *mon.M, c *Case) {
 	h := &harness{}
 	before := census()
-	body := &respBody{data: []byte(`{"k":"` + strings.Repeat("r", c.Len) + `"}`), eofWith: c.EOFWith}
-	srt := &scriptedRT{mode: c.Fault, body: body}
+	rl := c.Len
+	if c.RespLen > 0 {
+		rl = c.RespLen
+	}
+	body := &respBody{data: []byte(`{"k":"` + strings.Repeat("r", rl) + `"}`), eofWith: c.EOFWith}
+	srt := &scriptedRT{mode: c.Fault, body: body, ct: c.RespCT}
 	r := newRuntime(c, "example.invalid", srt)
 	op := &rt.ClientOperation{ID: "x", Method: "POST", PathPattern: "/things", ConsumesMediaTypes: consumesFor(c), ProducesMediaTypes: []string{"application/json"},
 		Params: h.params(c, baseDeadline, false), Reader: h.reader(c), Context: context.Background()}
@@ -638,15 +683,24 @@ func runRoundtrip(m *mon.M, c *Case) {
 			return
 		}
 	} else {
-		if c.Reader == "err" && o.err == nil {
+		if c.RespCT != "" {
+			// the answer's Content-Type cannot be parsed, or nothing is registered for it: the exchange ends with
+			// an error before the reader runs -- and the body still has to be closed (drained under reuse)
+			feat += "/unusable-response-content-type"
+			if o.err == nil {
+				m.Violate("roundtrip/unusable-content-type-accepted/"+feat, fmt.Sprintf("response Content-Type %q but Submit returned nil error", c.RespCT), c)
+				return
+			}
+		}
+		if c.RespCT == "" && c.Reader == "err" && o.err == nil {
 			m.Violate("roundtrip/reader-error-swallowed/"+feat, "the response reader failed but Submit returned nil error", c)
 			return
 		}
-		if c.Reader != "err" && o.err != nil {
+		if c.RespCT == "" && c.Reader != "err" && o.err != nil {
 			m.Violate("roundtrip/healthy-exchange-failed/"+feat, fmt.Sprintf("Submit failed: %v; case %s", o.err, c.key()), c)
 			return
 		}
-		if c.Reader == "all" && string(h.gotBody) != string(body.data) {
+		if c.RespCT == "" && c.Reader == "all" && string(h.gotBody) != string(body.data) {
 			m.Violate("roundtrip/body-altered/"+feat, fmt.Sprintf("reader saw %q, sent %q", h.gotBody, body.data), c)
 			return
 		}
@@ -948,7 +1002,7 @@ func enumerate(m *mon.M) []*Case {
 	}
 	// upload-source faults at every offset
 	maxLen := 64
-	lens := []int{0, 1, 2, 7, 64}
+	lens := []int{0, 1, 2, 7, 64, 600} // 600: beyond the 512 bytes read to sniff the type of a file part
 	if !quick {
 		maxLen = 70000
 		lens = nil
@@ -977,6 +1031,41 @@ func enumerate(m *mon.M) []*Case {
 			}
 			cs = append(cs, &Case{Kind: "upload", Payload: p, Len: l, Offset: -1, Chunk: 1, Reader: "all"}) // healthy, 1-byte reads
 			cs = append(cs, &Case{Kind: "upload", Payload: p, Len: l, Offset: l / 2, Fault: "with-getbody-auth", Reader: "all"})
+		}
+	}
+	// faults in the second source / in another field; sources whose Close reports an error
+	for _, p := range []string{"files+fields", "files-2-fields"} {
+		for _, fs := range []int{0, 1} {
+			for _, cf := range []bool{false, true} {
+				for _, l := range []int{7, 600} {
+					for _, off := range []int{-1, 0, l / 2, l} {
+						cs = append(cs, &Case{Kind: "upload", Payload: p, Len: l, Offset: off, Reader: "all", FaultSrc: fs, CloseFails: cf})
+					}
+				}
+			}
+		}
+	}
+	for _, f := range []string{"writer-error", "auth-error", "bad-path-pattern"} {
+		for _, p := range []string{"file", "files+fields", "files-2-fields"} {
+			cs = append(cs, &Case{Kind: "presend", Fault: f, Payload: p, Len: 700, Reader: "all", CloseFails: true})
+		}
+	}
+	// answers whose Content-Type is unusable, and bodies far larger than any buffer, left unread
+	for _, p := range []string{"json", "file"} {
+		for _, reuse := range []bool{false, true} {
+			for _, ct := range []string{"%%%", "application/x-nobody-registered", ""} {
+				for _, rd := range []string{"none", "half", "all"} {
+					for _, rl := range []int{300, 300000, 1 << 20} {
+						if ct == "" && rl == 300 {
+							continue // covered below
+						}
+						if quick && rl == 1<<20 && (ct != "" || rd == "all") {
+							continue
+						}
+						cs = append(cs, &Case{Kind: "roundtrip", Fault: "ok", Payload: p, Len: 300, RespLen: rl, RespCT: ct, Reuse: reuse, Reader: rd})
+					}
+				}
+			}
 		}
 	}
 	// scripted transport
@@ -1038,7 +1127,14 @@ func enumerate(m *mon.M) []*Case {
 			}
 		}
 	}
-	// drain sequences
+	// drain sequences over bodies larger than any fixed budget
+	for _, l := range []int{256<<10 + 1, 300000, 1 << 20} {
+		for _, ch := range []int{0, 4096} {
+			for _, szs := range [][]int{nil, {1}, {64, 64}} {
+				cs = append(cs, &Case{Kind: "drain", Len: l, Chunk: ch, Sizes: szs})
+			}
+		}
+	}
 	sizes := []int{0, 1, 3, 64}
 	for _, l := range []int{0, 1, 10, 100} {
 		for _, ew := range []bool{false, true} {
